@@ -31,6 +31,70 @@ def script_for(ob, meta):
                 "print('RESULT accepted', A.size, len(A))\n"
                 "assert A.size[0]*A.size[1] == %d, 'element count changed'\n"
                 % (r, c, a, b, r * c), 'accept')
+    if fn in ('matrix_add_generic', 'matrix_sub_generic',
+              'matrix_mul_generic', 'matrix_div_generic') and ob.kind in (
+                  'inplace-type-rule', 'kernel-typecode', 'shape-rule'):
+        return ('''
+import operator
+RANK = {'i': 0, 'd': 1, 'z': 2}
+VAL = {'i': [-4, -2, 0, 2, 4, 6], 'd': [-4.5, -2.0, 0.5, 2.0, 4.0, 6.5],
+       'z': [-4+1j, -2j, 0.5, 2+2j, 4, 6.5-1j]}
+SC = {'i': 2, 'd': 2.5, 'z': 2+1j}
+bad = []
+ops = {'+': (operator.add, operator.iadd), '-': (operator.sub, operator.isub),
+       '*': (operator.mul, operator.imul),
+       '/': (operator.truediv, operator.itruediv)}
+for sym, (bop, iop) in ops.items():
+    for ta in 'idz':
+        for tb in 'idz':
+            for other in ('scalar', '1x1', 'same', 'reshaped'):
+                if other in ('same', 'reshaped') and sym in '*/':
+                    continue
+                A = matrix(VAL[ta], (2, 3), ta)
+                B = {'scalar': SC[tb], '1x1': matrix([SC[tb]], (1, 1), tb),
+                     'same': matrix(VAL[tb], (2, 3), tb),
+                     'reshaped': matrix(VAL[tb], (3, 2), tb)}[other]
+                rt = max(RANK[ta], RANK[tb], 1 if sym == '/' else 0)
+                legal_shape = other != 'reshaped'
+                # binary form
+                try:
+                    R = bop(A, B)
+                    if not legal_shape:
+                        bad.append((sym, ta, tb, other, 'accepted'))
+                    elif RANK[R.typecode] != rt or R.size != A.size:
+                        bad.append((sym, ta, tb, other, R.typecode, R.size))
+                except TypeError:
+                    if legal_shape:
+                        bad.append((sym, ta, tb, other, 'TypeError'))
+                # in-place form: allowed exactly when the type stays
+                A = matrix(VAL[ta], (2, 3), ta)
+                keep = list(A)
+                try:
+                    A2 = iop(A, B)
+                    if rt != RANK[ta] or not legal_shape:
+                        bad.append((sym + '=', ta, tb, other, 'accepted',
+                                    list(A)))
+                    elif A2 is not A or A.typecode != ta:
+                        bad.append((sym + '=', ta, tb, other, 'not in place'))
+                    else:
+                        bl = list(B) if other in ('same',) else None
+                        for k in range(6):
+                            b = bl[k] if bl else SC[tb]
+                            want = bop(keep[k], b)
+                            if ta == 'i' and sym == '/':
+                                continue
+                            if abs(A[k] - want) > 1e-9:
+                                bad.append((sym + '=', ta, tb, other, k,
+                                            A[k], want))
+                                break
+                except TypeError:
+                    if rt == RANK[ta] and legal_shape:
+                        bad.append((sym + '=', ta, tb, other, 'TypeError'))
+                    elif list(A) != keep:
+                        bad.append((sym + '=', ta, tb, other, 'modified'))
+print('RESULT', bad[:5])
+assert not bad, 'operator rules violated: %r' % (bad[:4],)
+''', 'assert')
     if fn == 'matrix_rem_generic':
         return ("A = matrix([1, 2, 3, 4], (2,2), 'i')\n"
                 "mv = memoryview(A)\n"
